@@ -1437,8 +1437,8 @@ Proof.
     + repeat match goal with |- context [if ?b then _ else _] => destruct b end; cbn [fst]; auto.
     + destruct passive; [destruct nowait; exact H|]. cbn [fst]. repeat vs. auto.
   - destruct (alookup _ _ _); [|exact H]. destruct (seqb ex ""); [exact H|].
-    destruct (queue_found s q); [|exact H]. destruct (locked _ _); [exact H|]. destruct (bad_xmatch _); [exact H|]. cbn [fst]. vs. auto.
-  - destruct (alookup _ _ _); [|exact H]. destruct (queue_found s q); [|exact H]. destruct (locked _ _); [exact H|]. destruct (bad_xmatch _); [exact H|]. cbn [fst]. vs. auto.
+    destruct (queue_found s q); [|exact H]. destruct (locked _ _); [exact H|]. destruct (bad_xmatch _); [exact H|]. destruct (extype_eqb _ ExTopic && bad_pattern _)%bool; [exact H|]. cbn [fst]. vs. auto.
+  - destruct (alookup _ _ _); [|exact H]. destruct (queue_found s q); [|exact H]. destruct (locked _ _); [exact H|]. destruct (bad_xmatch _); [exact H|]. destruct (extype_eqb _ ExTopic && bad_pattern _)%bool; [exact H|]. cbn [fst]. vs. auto.
   - destruct (queue_found s q) as [qu|]; [|exact H]. destruct (locked _ _); [exact H|]. cbn [fst]. vsc.
   - destruct (queue_found s q); [|exact H]. destruct (locked _ _); [exact H|].
     pose proof (V_vhost_delete_queue s (negb (fx_delete_checks_first fx)) s q ifunused ifempty H) as Hd.
@@ -3852,14 +3852,14 @@ Proof.
       * left. exact (H en0 e0 bd Hin0 Hb).
   - (* MQBind *)
     destruct (alookup seqb ex (exchanges s)) as [e|] eqn:Eex; [|exact H]. destruct (seqb ex ""); [exact H|].
-    destruct (queue_found s q) as [qu|] eqn:Eqf; [|exact H]. destruct (locked _ _); [exact H|]. destruct (bad_xmatch _); [exact H|]. cbn [fst].
+    destruct (queue_found s q) as [qu|] eqn:Eqf; [|exact H]. destruct (locked _ _); [exact H|]. destruct (bad_xmatch _); [exact H|]. destruct (extype_eqb _ ExTopic && bad_pattern _)%bool; [exact H|]. cbn [fst].
     intros en e' bd Hin Hb. cbn [exchanges set] in Hin. apply in_aset in Hin. change (get_queue (s <| exchanges := _ |>) (b_queue bd)) with (get_queue s (b_queue bd)).
     destruct Hin as [E|Hin]; [|exact (H en e' bd Hin Hb)]. inversion E; subst en e'.
     apply in_append_binding in Hb. destruct Hb as [->|Hb]; [cbn; rewrite (queue_found_get _ _ _ Eqf); discriminate|].
     apply (alookup_in seqb seqb_spec) in Eex. exact (H ex e bd Eex Hb).
   - (* MQUnbind *)
     destruct (alookup seqb ex (exchanges s)) as [e|] eqn:Eex; [|exact H].
-    destruct (queue_found s q) as [qu|] eqn:Eqf; [|exact H]. destruct (locked _ _); [exact H|]. destruct (bad_xmatch _); [exact H|]. cbn [fst].
+    destruct (queue_found s q) as [qu|] eqn:Eqf; [|exact H]. destruct (locked _ _); [exact H|]. destruct (bad_xmatch _); [exact H|]. destruct (extype_eqb _ ExTopic && bad_pattern _)%bool; [exact H|]. cbn [fst].
     intros en e' bd Hin Hb. cbn [exchanges set] in Hin. apply in_aset in Hin. change (get_queue (s <| exchanges := _ |>) (b_queue bd)) with (get_queue s (b_queue bd)).
     destruct Hin as [E|Hin]; [|exact (H en e' bd Hin Hb)]. inversion E; subst en e'.
     unfold remove_binding in Hb. cbn in Hb. apply in_remove_first in Hb.
